@@ -45,7 +45,7 @@ CLAIMS.update({
          "R14c: every RandomState hash iteration site is reviewed order-insensitive or structurally sorted; R14e: Runtime::clear clears all state. "
          "Found three real nondeterminism defects (fixed) and five by-design clock reads (known findings).", "§4 C14"),
  "C34": ("table agreement: SIDE_EFFECT_FUNCTIONS (read from const MIR) vs pure() constants and P-EFFECT write atoms of all 203 functions",
-         "R34a-c: every impure or target/variable-writing closure-less function is in the checker's side-effect table and the table has no unknown names.", "§4 C34"),
+         "R34a-c: every impure or target/variable-writing closure-less function is in the checker's side-effect table and the table has no unknown names; R34d: a call carrying a closure is never reported as unused (CFG reachability from the Some edge).", "§4 C34"),
  "C36": ("who-may-call / effect analysis of Context::timezone and chrono::Local + def-use check of the explicit-argument default",
          "R36a-d: the configured zone can enter results only through the frozen set of wall-clock interpreters, and only as the default of an absent "
          "explicit `timezone` argument.", "§4 C36"),
@@ -85,7 +85,7 @@ CLAIMS.update({
  "C23": ("P-TRIE literal-dispatch reconstruction + per-literal agreement of monomorphic callee tokens between encrypt and decrypt",
          "R23a name-set equality (encrypt / decrypt / validator, and encrypt_ip/decrypt_ip); R23b same cipher, mode, padding and key/IV sizes per name on both sides.", "§4 C23"),
  "C27": ("P-TRIE (byte tries and str chains) + name normalisation of the instantiated hasher / constant per variant literal",
-         "R27a each variant's leaf instantiates the algorithm of that name and no sibling's; R27b validator table == dispatch set; R27c md5/sha1/seahash use their own crate.", "§4 C27"),
+         "R27a each variant's leaf instantiates the algorithm of that name and no sibling's; R27b validator table == dispatch set; R27c md5/sha1/seahash use their own crate; R27d no narrowing integer cast on a hasher's output (P-FLOW).", "§4 C27"),
 })
 
 CLAIMS.update({
